@@ -2,7 +2,8 @@
 from .lib import *
 
 RULE = ("scripts: new <POST|PUT|PATCH> with content-length N (N from {0,1,2,5,255,256,65535,65536,70000,2^32-1,2^32,"
-        "2^32+1,2^64-1} and random 0..70000), head written, then 1..14 body operations drawn from: write with input "
+        "2^32+1,2^64-1} and random 0..70000; the length given on the original request or added in Prepare, on a body method or on "
+        "GET/DELETE/OPTIONS with send_body_despite_method, directly or through the Expect handshake), head written, then 1..14 body operations drawn from: write with input "
         "length in {0,1,left-1,left,left+1,random,cap-limited}, output size in {0,1,2,3,random,large}, "
         "consume_direct_write with amounts around `left`, and read-only queries; thorough adds whole-body loops. "
         "non-trivial = the flow reached SendBody and at least one write or direct write accounted for >= 1 byte; "
@@ -13,12 +14,39 @@ ASSUMPTIONS = ["64-bit usize (the harness runs on x86_64 only)",
                "with Content-Length N reaches that state is covered by the correspondence scripts (every script starts at Flow::new)"]
 
 NS = [0, 1, 2, 5, 255, 256, 65535, 65536, 70000, 2 ** 32 - 1, 2 ** 32, 2 ** 32 + 1, 2 ** 64 - 1]
-_stats = {"n_values": {}, "ops": 0}
+_stats = {"n_values": {}, "ops": 0, "entry": {}}
 
 
 def patt(n, rng):
     base = rng.randrange(256)
     return bytes(((base + i * 7) & 0xFF) for i in range(n))
+
+
+def entry(rng, method, version, n, kind=None):
+    """The ways a flow with a Content-Length body of n bytes reaches SendBody: the length on the original request or added in Prepare,
+    a body-carrying method or any method with send_body_despite_method, directly or through the Expect handshake."""
+    kind = kind or rng.choice(["original", "original", "original", "added", "added", "despite-original", "despite-added", "expect", "expect-added"])
+    _stats["entry"][kind] = _stats["entry"].get(kind, 0) + 1
+    cl = ("content-length", str(n))
+    extra = [("x-a", "b")] if rng.random() < 0.3 else []
+    add = "header %s %s" % (hx(b"content-length"), hx(str(n)))
+    if kind == "original":
+        return [op_new(method, version, "http", "a.test", "/up", extra + [cl]), "proceed", "write_head #4096", "proceed"]
+    if kind == "added":
+        return [op_new(method, version, "http", "a.test", "/up", extra), add, "proceed", "write_head #4096", "proceed"]
+    if kind == "despite-original":
+        m = rng.choice(["GET", "DELETE", "OPTIONS"])
+        return [op_new(m, "1.1", "http", "a.test", "/up", extra + [cl]), "despite", "proceed", "write_head #4096", "proceed"]
+    if kind == "despite-added":
+        m = rng.choice(["GET", "DELETE", "OPTIONS"])
+        first, second = rng.choice([("despite", add), (add, "despite")])
+        return [op_new(m, "1.1", "http", "a.test", "/up", extra), first, second, "proceed", "write_head #4096", "proceed"]
+    ex = ("expect", "100-continue")
+    if kind == "expect":
+        ops = [op_new(method, version, "http", "a.test", "/up", extra + [ex, cl]), "proceed", "write_head #4096", "proceed"]
+    else:
+        ops = [op_new(method, version, "http", "a.test", "/up", extra + [ex]), add, "proceed", "write_head #4096", "proceed"]
+    return ops + [rng.choice(["raw_try100 %s" % hx(b"HTTP/1.1 100 Continue\r\n\r\n"), "raw_try100 x"]), "proceed"]
 
 
 def gen_one(rng, big):
@@ -27,10 +55,7 @@ def gen_one(rng, big):
     _stats["n_values"][key] = _stats["n_values"].get(key, 0) + 1
     method = rng.choice(BODY_METHODS)
     version = "1.1" if method != "POST" or rng.random() < 0.7 else "1.0"
-    headers = [("content-length", str(n))]
-    if rng.random() < 0.3:
-        headers.insert(0, ("x-a", "b"))
-    ops = [op_new(method, version, "http", "a.test", "/up", headers), "proceed", "write_head #4096", "proceed"]
+    ops = entry(rng, method, version, n)
     left = n
     nops = rng.randrange(1, 15)
     for _ in range(nops):
@@ -186,6 +211,10 @@ def oracle(script, obs):
                 break
             if must_be_finished and not fin:
                 fails.append("op %d: all %d bytes accounted for and end signalled, but not finished" % (i, n))
+                break
+        elif p[0] == "q_is_chunked":
+            if o != "false":
+                fails.append("op %d: a request that declares Content-Length %d reports is_chunked = %s" % (i, n, o))
                 break
         elif p[0] == "q_max_input":
             if o != "#%d" % unnum(p[1]):
